@@ -123,6 +123,21 @@ UNITS = {
              'find': 'while begin != end && !self.can_oov_bow_node(text, &path[begin]) {', 'replace': 'while begin != end + 1 && !self.can_oov_bow_node(text, &path[begin]) {'},
         ],
     },
+    'v_numeric': {
+        'tpl': 'units/v_numeric.rs.tpl', 'rlimit': 80,
+        'mutants': [
+            {'name': 'look-back index slips by one', 'file': 'sudachi/src/plugin/path_rewrite/join_numeric/mod.rs',
+             'find': 'let ss = path[i as usize - 1].word_info().normalized_form();', 'replace': 'let ss = path[i as usize - 2].word_info().normalized_form();'},
+            {'name': 'resume index past the path', 'file': 'sudachi/src/plugin/path_rewrite/join_numeric/mod.rs',
+             'find': 'i = begin_idx + 2;', 'replace': 'i = begin_idx + 3;'},
+            {'name': 'last part merged one past the end', 'file': 'sudachi/src/plugin/path_rewrite/join_numeric/mod.rs',
+             'find': 'path = self.concat(path, begin_idx as usize, len, &mut parser)?;', 'replace': 'path = self.concat(path, begin_idx as usize, len + 1, &mut parser)?;'},
+            {'name': 'merge drops the normalised numeral check of the part of speech', 'file': 'sudachi/src/plugin/path_rewrite/join_numeric/mod.rs',
+             'find': 'i = begin_idx - 1;\n                            } else if', 'replace': 'i = begin_idx - 2;\n                            } else if'},
+            {'name': 'concat merges from the second token', 'file': 'sudachi/src/plugin/path_rewrite/join_numeric/mod.rs',
+             'find': 'path = concat_nodes(path, begin, end, None)?;', 'replace': 'path = concat_nodes(path, begin + 1, end, None)?;'},
+        ],
+    },
 }
 
 NOT_APPLICABLE = {
@@ -133,9 +148,9 @@ for _i in range(1, 21):
 
 PROPS = {
     'C14': {
-        'level_text': 'Verus proves on the real concat_nodes / concat_oov_nodes (merged_at: the run old[b..e) becomes one token with exactly the union of the byte and code-point ranges, all other tokens unchanged and in order) and on the real JoinKatakanaOovPlugin::rewrite_gen (every index in range, the scan terminates, and the output is a coarsening of the input path: predicate is_coarsening) for every path and every text',
-        'level_note': 'assumed: character-class queries (InputTextIndex) are pure functions of the text; nodes of the incoming path are non-empty, contiguous, inside the text and have head_word_length <= byte span (path_ok; established by the lattice/tokenizer, not yet chained); JoinNumericPlugin::rewrite_gen is being brought under contract separately',
-        'verus': ['v_wordid', 'v_node', 'v_katakana'],
+        'level_text': 'Verus proves on the real concat_nodes / concat_oov_nodes (merged_at: the run old[b..e) becomes one token with exactly the union of the byte and code-point ranges, all other tokens unchanged and in order) and on the real JoinKatakanaOovPlugin::rewrite_gen (every index in range, the scan terminates, and the output is a coarsening of the input path: predicate is_coarsening) and JoinNumericPlugin::rewrite_gen / concat (every index and i32/usize conversion in range, output is a coarsening) for every path and every text',
+        'level_note': 'assumed: character-class queries (InputTextIndex) are pure functions of the text; nodes of the incoming path are non-empty, contiguous, inside the text and have head_word_length <= byte span (path_ok; established by the lattice/tokenizer, not yet chained); JoinNumericPlugin::rewrite_gen/concat: same coarsening result and index safety, but its termination (restarting scan) is NOT proved (exec_allows_no_decreases_clause), the NumericParser is an opaque collaborator here (C15), and a lone numeral may be re-issued with a new normalised form',
+        'verus': ['v_wordid', 'v_node', 'v_katakana', 'v_numeric'],
         'kani': [],
         'assumptions': ['path_ok of the path handed to the plugins', 'InputTextIndex methods are pure'],
     },
